@@ -47,12 +47,20 @@
   finds no invocation and draws an INTERRUPT
   testaments: k's bucket is taken from the table and turned      C05_leave_testaments
   into publish tasks exactly once, detached then destroyed,
-  followed by on_leave; NOT for shutdown and kill_all (F30)
+  followed by on_leave, for EVERY non-shutdown mode (kill_all
+  included: F30 fixed); nothing for shutdown
   "the router holds no per-session … state" once no session      C05_returns_to_empty
   is attached
   calls / invocations / invocationByCall have equal sizes,       C05_bounded
   every entry belongs to attached sessions (so the tables are
   bounded by the pending calls of attached sessions)
+
+  HYPOTHESES ON SESSION KEYS.  None of the theorems below needs "joins use fresh keys" or
+  "no session joins with key 0 (= metaKey)": `isClient` / `att` are stated by key, `Realm.leave k`
+  removes every client entry with key k, and a client that (in the model only — the harness never
+  does it, the router draws random non-zero ids) carried the key 0 would merely be conflated with
+  the meta session by `att`.  Where key freshness matters (one realm per session) it is an explicit
+  hypothesis: `C11_attach_once_step`, `C11_sessions_partitioned`, `C11_dispatch_own_realm`.
 
   NOT proved here / recorded limits
   * `queues`: the model keeps the outbound queue of a departed session that had stopped reading
@@ -67,11 +75,10 @@
     state (pending `metaInvoke add_testament` of a caller that is not attached) in which running the
     task leaves a testament of a non-attached session.  `C05_leave_testaments` (what leave does to
     the table) is unconditional.
-  * F30: `kill_all` ends sessions with `killAll = true`: their testaments are taken from the table
-    and DISCARDED and no `on_leave` is announced (`C05_leave_testaments`, second part) — as the Go
-    code does (`if shutdown || killAll { return }` in `onLeave`).  Read literally ("kill through the
-    meta API … its stored testaments are published exactly once") this violates the property: the
-    sessions killed by kill_all are published zero times although the realm lives on.
+  * F30 (fixed in /repo 624448b, model follows): sessions ended by `kill_all` used to lose their
+    testaments and their `on_leave`; now `kill_all` is a kill like any other and
+    `C05_leave_testaments` holds at full strength for every non-shutdown mode.  Only the realm
+    shutdown (Router.Close / RemoveRealm) is silent, by design.
 -/
 import Nexus.L2.Proofs.RealmLeave
 
@@ -225,18 +232,19 @@ theorem C05_yield_after_leave (env : DEnv) (s : DState) (callee : SessKey) (req 
   · rw [syncYield_none opts args kw true canRetry hf]; simp [hfull]
   · rw [syncYield_none opts args kw false canRetry hf]; simp
 
-/-- Testaments.  The bucket of `k` is removed from the table (every mode).  For the modes lost,
-    killed (not kill_all), aborted and violation the departure appends, after the tasks of the
-    table removal, exactly: one publish task per testament — detached first, then destroyed, in
-    stored order — followed by the `wamp.session.on_leave` announcement.  For shutdown and kill_all
-    NOTHING is appended: the bucket is discarded (F30) and `on_leave` is not announced. -/
+/-- Testaments.  The bucket of `k` is removed from the table (every mode).  For EVERY non-shutdown
+    mode — lost, killed (kill, kill_by_authid, kill_by_authrole AND kill_all), aborted, violation —
+    the departure appends, after the tasks of the table removal, exactly: one publish task per
+    testament — detached first, then destroyed, in stored order — followed by the
+    `wamp.session.on_leave` announcement: the stored testaments are published exactly once.  For
+    the realm shutdown nothing is appended (quiet by design). -/
 theorem C05_leave_testaments (r : Realm) (k : SessKey) (s : Session) (mode : LeaveMode)
     (hf : r.clients.find? (fun c => c.key == k) = some s) :
     (r.leave k mode).testaments = r.testaments.filter (fun t => t.1 != k) ∧
-    ((mode.isShutdown || mode.killAll) = false →
+    (mode.isShutdown = false →
       (r.leave k mode).tasks =
         leaveBaseTasks r k mode ++ (testamentTasks (bucketOf r k) ++ [.metaPub (onLeavePub s)])) ∧
-    ((mode.isShutdown || mode.killAll) = true → (r.leave k mode).tasks = leaveBaseTasks r k mode) ∧
+    (mode.isShutdown = true → (r.leave k mode).tasks = leaveBaseTasks r k mode) ∧
     (∀ b, bucketOf r k = some b →
       testamentTasks (bucketOf r k) = (b.detached ++ b.destroyed).map (fun t => Task.metaPub (testamentPub t))) ∧
     (bucketOf r k = none → testamentTasks (bucketOf r k) = []) := by
@@ -250,13 +258,12 @@ theorem C05_leave_testaments (r : Realm) (k : SessKey) (s : Session) (mode : Lea
   · intro b hb; rw [hb]; rfl
   · intro hb; rw [hb]; rfl
 
--- which modes are silent
-example : (LeaveMode.lost.isShutdown || LeaveMode.lost.killAll) = false ∧
-    ((LeaveMode.violation "x").isShutdown || (LeaveMode.violation "x").killAll) = false ∧
-    (LeaveMode.aborted.isShutdown || LeaveMode.aborted.killAll) = false ∧
-    ((LeaveMode.killed (.goodbye [] "r") false).isShutdown || (LeaveMode.killed (.goodbye [] "r") false).killAll) = false ∧
-    ((LeaveMode.killed (.goodbye [] "r") true).isShutdown || (LeaveMode.killed (.goodbye [] "r") true).killAll) = true ∧
-    (LeaveMode.shutdown.isShutdown || LeaveMode.shutdown.killAll) = true := by decide
+-- which modes are silent: only the shutdown
+example : LeaveMode.lost.isShutdown = false ∧ (LeaveMode.violation "x").isShutdown = false ∧
+    LeaveMode.aborted.isShutdown = false ∧
+    (LeaveMode.killed (.goodbye [] "r") false).isShutdown = false ∧
+    (LeaveMode.killed (.goodbye [] "r") true).isShutdown = false ∧
+    LeaveMode.shutdown.isShutdown = true := by decide
 
 /-- the per-task statement "testament keys are attached sessions" for an arbitrary pending
     `metaInvoke` … -/
